@@ -40,6 +40,7 @@ type Job struct {
 	Extra   string
 	Timeout time.Duration
 	Race    bool // run under the Go race detector (auxiliary sensor, thorough tier)
+	Debug   bool // run from a harness built with jiva's own `debug` build tag as well (its delay failpoints are live)
 }
 
 // Plan describes the check of one property.
@@ -55,6 +56,8 @@ type Plan struct {
 	// RaceJobs: workers additionally run from a -race build in the thorough tier; their race reports are
 	// counted and de-duplicated in the evidence as an auxiliary observation, never as a verdict
 	RaceJobs func() []Job
+	// DebugJobs: workers that run from a build with jiva's `debug` tag in addition (both tiers)
+	DebugJobs func(tier string) []Job
 }
 
 func jobs(engine string, workers, cases int, extra string, timeout time.Duration) []Job {
@@ -106,6 +109,19 @@ func runCheck(id, tier string, rest []string) int {
 			fmt.Fprintln(os.Stderr, "note: race build unavailable:", err)
 		}
 	}
+	debugBin := ""
+	if plan.DebugJobs != nil {
+		db, err := buildTagged(scratch, "vcheck-debug", "verif debug", false)
+		if err != nil {
+			fmt.Fprintln(os.Stderr, "BUILD-FAILED: the harness does not build with jiva's debug tag:", err)
+			return 3
+		}
+		debugBin = db
+		for _, j := range plan.DebugJobs(tier) {
+			j.Debug = true
+			js = append(js, j)
+		}
+	}
 	total := vk.NewResult("driver")
 	needBin := false
 	for _, j := range js {
@@ -142,6 +158,9 @@ func runCheck(id, tier string, rest []string) int {
 				args = append(args, "-extra", j.Extra)
 			}
 			bin, env := self, []string(nil)
+			if j.Debug {
+				bin = debugBin
+			}
 			if j.Race {
 				bin = raceBin
 				env = []string{"GORACE=halt_on_error=0 log_path=" + filepath.Join(scratch, fmt.Sprintf("race.w%d", i))}
@@ -248,15 +267,27 @@ func runCheck(id, tier string, rest []string) int {
 
 // buildRace compiles the harness (and jiva with it) with the race detector.
 func buildRace(scratch string) (string, error) {
-	bin := filepath.Join(scratch, "vcheck-race")
-	args := []string{"build", "-race", "-tags", "verif", "-o", bin}
+	return buildTagged(scratch, "vcheck-race", "verif", true)
+}
+
+// buildTagged compiles the harness (and jiva with it) with the given build tags.
+func buildTagged(scratch, name, tags string, race bool) (string, error) {
+	bin := filepath.Join(scratch, name)
+	args := []string{"build", "-tags", tags, "-o", bin}
+	if race {
+		args = []string{"build", "-race", "-tags", tags, "-o", bin}
+	}
 	if alt := os.Getenv("VERIF_ALT_REPO"); alt != "" {
 		args = append(args, "-modfile="+filepath.Join(verifRoot, ".bin", "alt-"+strings.ReplaceAll(alt, "/", "_"), "go.mod"))
 	}
 	args = append(args, "./cmd/vcheck")
 	cmd := exec.Command("go", args...)
 	cmd.Dir = filepath.Join(verifRoot, "harness")
-	cmd.Env = append(os.Environ(), "GOFLAGS=-mod=mod", "GOPROXY=off", "GOSUMDB=off", "GOTOOLCHAIN=local", "CGO_ENABLED=1")
+	cgo := "CGO_ENABLED=0"
+	if race {
+		cgo = "CGO_ENABLED=1"
+	}
+	cmd.Env = append(os.Environ(), "GOFLAGS=-mod=mod", "GOPROXY=off", "GOSUMDB=off", "GOTOOLCHAIN=local", cgo)
 	out, err := cmd.CombinedOutput()
 	if err != nil {
 		return "", fmt.Errorf("%v: %.300s", err, out)
